@@ -863,8 +863,14 @@ class iindex(dict):
 
         old_numrows = self.shape[0]
         new_numrows = old_numrows + other.shape[0]
-        shift = self.rowid_dtype.type(old_numrows)
         dtype = self.ROWID_DTYPE
+        if new_numrows - 1 > numpy.iinfo(dtype).max:
+            # The rowids of the appended rows would silently wrap around.
+            raise ValueError(
+                "Cannot append %d rows to %d: %s rowids cannot address %d rows."
+                % (other.shape[0], old_numrows, numpy.dtype(dtype).name, new_numrows)
+            )
+        shift = self.rowid_dtype.type(old_numrows)
 
         if len(self.shape) > 1:
             for coords, new_rowids in other.items():
